@@ -166,6 +166,9 @@ type c08Farm struct {
 	// measured: request key -> (recv time, send time)
 	mu    sync.Mutex
 	times map[[3]uint32][2]int64
+	// plans on a fixed bind port: no replies after a discovery's deadline (whatever arrives late on a fixed port belongs to the next
+	// call that holds the port - legal, and not what those plans are about)
+	noStream atomic.Bool
 }
 
 func (f *c08Farm) script(ep *farm.Endpoint, src net.Addr, req []byte, seq uint64) []farm.Action {
@@ -180,7 +183,7 @@ func (f *c08Farm) script(ep *farm.Endpoint, src net.Addr, req []byte, seq uint64
 				"MacAddress": rm.Val{K: rm.MAC, B: []byte{0, 1, 2, 3, 4, byte(i)}}, "Version": rm.UVal(rm.Version, 0x0892), "Date": rm.DateVal(2020, 1, 1+i)}
 			out = append(out, farm.Action{Delay: f.T / 5, Data: rm.Encode(rm.FindOp("GetDevice").ReplyLayout(), 0x17, vals)})
 		}
-		if seq%2 == 1 {
+		if seq%2 == 1 && !f.noStream.Load() {
 			// every other discovery: replies are still arriving when the collection ends - a steady stream of further controllers from
 			// 30 ms before to 30 ms after the deadline
 			for i := 0; i < 150; i++ {
@@ -292,6 +295,7 @@ func c08Plan(c *Ctx, planNo int, T time.Duration) {
 	f.fm.SetScript(f.script)
 
 	fixed := planNo%2 == 1
+	f.noStream.Store(fixed)
 	nClients := 1 + r.Pick(3)
 	serialBase := uint32(0x50000000) + uint32(c.Batch)<<22 + uint32(planNo)<<14
 	ctrls := []c08Ctrl{
@@ -1037,7 +1041,6 @@ func c08DiscoveryAtDeadline(c *Ctx) {
 	replies := make([][]byte, N)
 	var round atomic.Uint32 // every discovery is answered by a site of its own (serial numbers 0x0c200000 + round*1024 + i): what is still on its
 	// way from the previous site when the next discovery starts can be told apart
-	var streaming sync.WaitGroup
 	for i := range replies {
 		vals := rm.Vals{"SerialNumber": rm.Val{K: rm.Serial, U: uint64(0x0c200000 + i)}, "IpAddress": rm.IPVal(10, 0, byte(2+i/250), byte(1+i%250)), "SubnetMask": rm.IPVal(255, 255, 0, 0), "Gateway": rm.IPVal(10, 0, 0, 254),
 			"MacAddress": rm.Val{K: rm.MAC, B: []byte{0, 1, 2, 4, byte(i >> 8), byte(i)}}, "Version": rm.UVal(rm.Version, 0x0892), "Date": rm.DateVal(2021, 1+i%12, 1+i%28)}
@@ -1059,12 +1062,6 @@ func c08DiscoveryAtDeadline(c *Ctx) {
 			b[4], b[5], b[6], b[7] = byte(s), byte(s>>8), byte(s>>16), byte(s>>24)
 			out = append(out, farm.Action{Delay: d, Data: b})
 		}
-		// a last action that tells the monitor the stream is over
-		streaming.Add(1)
-		go func() {
-			defer streaming.Done()
-			time.Sleep(T + 60*time.Millisecond)
-		}()
 		return out
 	})
 	rounds := c.N(10, 40)
@@ -1112,8 +1109,7 @@ func c08DiscoveryAtDeadline(c *Ctx) {
 			}
 		}
 		time.Sleep(50 * time.Millisecond) // the rest of the stream goes nowhere
-		fm.WaitIdle(time.Second)
-		streaming.Wait()
+		time.Sleep(40 * time.Millisecond)
 	}
 }
 
